@@ -40,6 +40,11 @@ def main():
         print('patch does not apply:', r.stderr)
         return 2
     results = []
+    # the evidence files under /verif/evidence describe runs against /repo itself: keep them, a seeded run must not replace them
+    saved = {}
+    for c in checks:
+        ep = os.path.join(ROOT, 'evidence', c + '.json')
+        saved[c] = open(ep).read() if os.path.exists(ep) else None
     try:
         for c in checks:
             for s in seeds:
@@ -61,6 +66,12 @@ def main():
                 print('%s seed=%s -> %s %s' % (c, s, 'DETECTED' if res['detected'] else ('exit %d' % p.returncode), what[:160]))
     finally:
         subprocess.run(['git', '-C', REPO, 'checkout', '--', '.'])
+        for c, txt in saved.items():
+            ep = os.path.join(ROOT, 'evidence', c + '.json')
+            if txt is not None:
+                open(ep, 'w').write(txt)
+            elif os.path.exists(ep):
+                os.remove(ep)
     rf = os.path.join(d, 'results.json')
     old = json.load(open(rf)) if os.path.exists(rf) else []
     json.dump(old + results, open(rf, 'w'), indent=1)
